@@ -105,10 +105,14 @@ func (o *operations) GracefulClose() {
 
 	busyCh := o.busyCh
 	o.mu.Unlock()
-	if busyCh == nil {
-		return
+	// wait until every operation that was accepted before the close has run:
+	// the worker may hand off to a fresh one (with a fresh busyCh) in between.
+	for busyCh != nil {
+		<-busyCh
+		o.mu.Lock()
+		busyCh = o.busyCh
+		o.mu.Unlock()
 	}
-	<-busyCh
 }
 
 func (o *operations) pop() func() {
@@ -134,7 +138,7 @@ func (o *operations) start() {
 		// this wil lbe the most recent busy chan
 		close(o.busyCh)
 
-		if o.ops.Len() == 0 || o.isClosed {
+		if o.ops.Len() == 0 {
 			o.busyCh = nil
 
 			return
